@@ -46,6 +46,9 @@ type Stim struct {
 	Pipelined bool `json:"pipelined"`
 	// Crowd (real udp server): other peers come and go; every tick finds closed connections of theirs waiting to be dismantled
 	Crowd bool `json:"crowd"`
+	// Fast (stream connections): a pong event at the same instant as the tick before it is delivered BEFORE the write of the
+	// ping has returned - the peer answers faster than the pinging goroutine gets back from the socket
+	Fast bool `json:"fast"`
 }
 
 // pipeline turns frames into chunks that end in the middle of the next frame (an extra request frame per chunk, completed by
@@ -274,12 +277,35 @@ func runTCP(st Stim) Trace {
 	}
 	n := 0
 	wasClosed := false
-	for _, e := range st.Events {
+	var early atomic.Bool  // the next pong event has been delivered from inside the ping's Write
+	var expect atomic.Bool // the event after the current tick is a pong at the same instant
+	if st.Fast {
+		t.Stream.OnWrite = func(p []byte) {
+			if !expect.Load() {
+				return
+			}
+			if fs, _ := conns.Frames(p); len(fs) == 1 && fs[0].Code == int(codes.Ping) && expect.CompareAndSwap(true, false) {
+				t.Stream.Feed(conns.Frame(int(codes.Pong), fs[0].Token, nil, nil))
+				t.Settle()
+				early.Store(true)
+			}
+		}
+	}
+	for i, e := range st.Events {
 		if wasClosed {
 			tr.Obs = append(tr.Obs, Obs{Closed: true, Pings: len(pingToks)})
 			continue
 		}
 		vnow.Store(int64(e.T))
+		if st.Fast && e.E == "tick" && i+1 < len(st.Events) && st.Events[i+1].E == "pong" && st.Events[i+1].T == e.T && st.Events[i+1].G == len(pingToks)+1 {
+			expect.Store(true)
+		}
+		if e.E == "pong" && early.CompareAndSwap(true, false) {
+			// already delivered, at this very instant, before the ping's write returned
+			scan()
+			tr.Obs = append(tr.Obs, Obs{Closed: false, Pings: len(pingToks)})
+			continue
+		}
 		switch e.E {
 		case "recv":
 			n++
@@ -305,6 +331,7 @@ func runTCP(st Stim) Trace {
 			}
 		case "tick":
 			t.CC.CheckExpirations(clock())
+			expect.Store(false) // (no ping was written at this tick: the pong event that follows is delivered the ordinary way)
 		}
 		closed := false
 		if closes.Load() > 0 { // the monitor has decided: the reader goroutine completes the close a moment later
